@@ -129,6 +129,9 @@ def run(ctx):
     nrx = 32 if quick else 480
     for j in range(nrx):
         H = samegen.gen_header(rng, nloc=rng.choice([1, 3, 8]))
+        if j % 4 == 1:
+            # data that contains the sync word at a non-byte phase (only possible while the sync is locked)
+            H = H[:H.rindex(b"-", 0, len(H) - 1) + 1] + rng.choice([b"WWWW/FM", b"WWWWW", b"]]]]]/A", b"uuuuu  ", b"WWWWaWWW"]) + b"-"
         rate = rng.choice(rxlib.STD_RATES)
         tx = rxlib.Tx(rng, H=H, rate=rate, noise=False)
         tx.frac = (j % 16) / 16.0 * 2.0 % 1.0
